@@ -201,25 +201,39 @@ theorem addrOffset_sub_nonneg (h : addrIntOf ss ai = some a) (hr : k ≤ a) (hb 
       .ok (.numeric (a - k) (some 4) .extended false) := by
   rw [addrOffset_addr_num ss ai a k ma mk m hk nk ae '-' h]
   have : addrArith '-' a k = some (((a - k : Nat) : Int)) := by
-    have : (a : Int) - k = ((a - k : Nat) : Int) := by omega
+    have : ((a : Int) - k) % 65536 = ((a - k : Nat) : Int) := by omega
     simp [addrArith, this]
   rw [this]
   have h1 : ¬ ((a - k : Nat) : Int) > 65535 := by omega
   have h2 : ¬ ((a - k : Nat) : Int) < 0 := by omega
   simp only [addrResult, h1, h2, if_false, Int.natAbs_natCast, decide_false]
 
-/-- a negative offset result of ANY magnitude is accepted (no −32768 bound on this path) -/
-theorem addrOffset_sub_neg (h : addrIntOf ss ai = some a) (hr : a < k) :
+/-- a result below zero is reduced modulo 65536 (since fix 1477b47; before it the magnitude `k - a` was stored
+with the sign flag and encoded as a positive word) -/
+theorem addrOffset_sub_neg (h : addrIntOf ss ai = some a) (hr : a < k) (hk16 : k - a ≤ 65536) :
     addrOffset ss (.expr (.address ai ma) (.numeric k hk mk nk) '-' m ae) =
-      .ok (.numeric (k - a) (some 4) .extended true) := by
+      .ok (.numeric (65536 - (k - a)) (some 4) .extended false) := by
   rw [addrOffset_addr_num ss ai a k ma mk m hk nk ae '-' h]
-  have : addrArith '-' a k = some (-(((k - a : Nat) : Int))) := by
-    have : (a : Int) - k = -((k - a : Nat) : Int) := by omega
+  have : addrArith '-' a k = some (((65536 - (k - a) : Nat) : Int)) := by
+    have : ((a : Int) - k) % 65536 = ((65536 - (k - a) : Nat) : Int) := by omega
     simp [addrArith, this]
   rw [this]
-  have h1 : ¬ (-((k - a : Nat) : Int)) > 65535 := by omega
-  have h2 : (-((k - a : Nat) : Int)) < 0 := by omega
-  simp only [addrResult, h1, h2, if_false, Int.natAbs_neg, Int.natAbs_natCast, decide_true]
+  have h1 : ¬ ((65536 - (k - a) : Nat) : Int) > 65535 := by omega
+  have h2 : ¬ ((65536 - (k - a) : Nat) : Int) < 0 := by omega
+  simp only [addrResult, h1, h2, if_false, Int.natAbs_natCast, decide_false]
+
+/-- subtraction never fails and always lands in 0..65535 -/
+theorem addrOffset_sub_total (h : addrIntOf ss ai = some a) :
+    ∃ z, z ≤ 65535 ∧ addrOffset ss (.expr (.address ai ma) (.numeric k hk mk nk) '-' m ae) =
+      .ok (.numeric z (some 4) .extended false) ∧ (z : Int) = ((a : Int) - k) % 65536 := by
+  rw [addrOffset_addr_num ss ai a k ma mk m hk nk ae '-' h]
+  refine ⟨(((a : Int) - k) % 65536).toNat, by omega, ?_, by omega⟩
+  have h0 : addrArith '-' a k = some (((a : Int) - k) % 65536) := by simp [addrArith]
+  rw [h0]
+  have h1 : ¬ (((a : Int) - k) % 65536) > 65535 := by omega
+  have h2 : ¬ (((a : Int) - k) % 65536) < 0 := by omega
+  have h3 : (((a : Int) - k) % 65536).natAbs = (((a : Int) - k) % 65536).toNat := by omega
+  simp only [addrResult, h1, h2, if_false, decide_false, h3]
 
 theorem addrOffset_mul (h : addrIntOf ss ai = some a) :
     addrOffset ss (.expr (.address ai ma) (.numeric k hk mk nk) '*' m ae) =
@@ -286,26 +300,26 @@ theorem addrOffset_label_sub_label (h : addrIntOf ss ai = some a) (h' : addrIntO
       .ok (.numeric (a - b) (some 4) .extended false) := by
   rw [addrOffset_addr_addr ss ai aj a b ma mb m ae '-' h h']
   have : addrArith '-' a b = some (((a - b : Nat) : Int)) := by
-    have : (a : Int) - b = ((a - b : Nat) : Int) := by omega
+    have : ((a : Int) - b) % 65536 = ((a - b : Nat) : Int) := by omega
     simp [addrArith, this]
   rw [this]
   have h1 : ¬ ((a - b : Nat) : Int) > 65535 := by omega
   have h2 : ¬ ((a - b : Nat) : Int) < 0 := by omega
   simp only [addrResult, h1, h2, if_false, Int.natAbs_natCast, decide_false]
 
-/-- `L1 - L2` with `L1` below `L2`: the negative difference of the two addresses (magnitude plus neg flag) -/
+/-- `L1 - L2` with `L1` below `L2`: the difference reduced modulo 65536 (since fix 1477b47) -/
 theorem addrOffset_label_sub_label_neg (h : addrIntOf ss ai = some a) (h' : addrIntOf ss aj = some b)
-    (hr : a < b) :
+    (hr : a < b) (hb16 : b - a ≤ 65536) :
     addrOffset ss (.expr (.address ai ma) (.address aj mb) '-' m ae) =
-      .ok (.numeric (b - a) (some 4) .extended true) := by
+      .ok (.numeric (65536 - (b - a)) (some 4) .extended false) := by
   rw [addrOffset_addr_addr ss ai aj a b ma mb m ae '-' h h']
-  have : addrArith '-' a b = some (-(((b - a : Nat) : Int))) := by
-    have : (a : Int) - b = -((b - a : Nat) : Int) := by omega
+  have : addrArith '-' a b = some (((65536 - (b - a) : Nat) : Int)) := by
+    have : ((a : Int) - b) % 65536 = ((65536 - (b - a) : Nat) : Int) := by omega
     simp [addrArith, this]
   rw [this]
-  have h1 : ¬ (-((b - a : Nat) : Int)) > 65535 := by omega
-  have h2 : (-((b - a : Nat) : Int)) < 0 := by omega
-  simp only [addrResult, h1, h2, if_false, Int.natAbs_neg, Int.natAbs_natCast, decide_true]
+  have h1 : ¬ ((65536 - (b - a) : Nat) : Int) > 65535 := by omega
+  have h2 : ¬ ((65536 - (b - a) : Nat) : Int) < 0 := by omega
+  simp only [addrResult, h1, h2, if_false, Int.natAbs_natCast, decide_false]
 
 /-- `L1 + L2`: the sum of the two addresses, a diagnostic when it does not fit 16 bits -/
 theorem addrOffset_label_add_label (h : addrIntOf ss ai = some a) (h' : addrIntOf ss aj = some b) :
